@@ -1,6 +1,8 @@
 """C05 - concurrent users of one UDS client.  2..5 real tasks (typed service calls, send_raw(), the cyclic tester-present
 worker with its start / stop, reconnects) share one real ECU client over a scripted wire with ONE inbox under virtual
-time; the client lock, the transport, asyncio.sleep and create_task are instrumented from outside.  Two things are
+time; the client lock (the client's OWN mutex object, re-classed in place so that the lock class the client chose runs underneath the
+instrumentation; the real lock is asked `locked()` once everybody has ended), the transport, asyncio.sleep and create_task are instrumented
+from outside.  Two things are
 recorded per run and replayed through the Lean models:
 
   * the event trace (want / got / op / rel / unwait / ended) for the lock-discipline acceptor (Model/ClientConc.lean);
@@ -52,6 +54,15 @@ ASSUMPTIONS = [
     "an unreachable target is a connect() that raises ConnectionRefusedError (also TimeoutError / OSError) on the scripted wire; one connection attempt "
     "takes 50 virtual ms; 'never returns' means: not within 120 virtual seconds after the call (the harness cap), which for the modelled loop "
     "(reconnect_bounded: at most timeout/100 ms + 1 attempts) is far beyond every deadline used",
+    "the client mutex is instrumented in place (instance re-classed to a tracing subclass of its own class), so acquire() / release() of whatever "
+    "asyncio.Lock subclass the client uses run for real; a mutex that is not an asyncio.Lock is replaced by a traced plain asyncio.Lock (the "
+    "regenerated lock-site table reports the changed creation site)",
+    "a waiting caller is cancelled by Task.cancel() at its acquire, by an asyncio.wait_for() deadline (deadlines chosen so that they do not coincide "
+    "with another event of the run; the caller gives up after the deadline) and by stop_cyclic_tester_present() of a queued worker; a caller "
+    "that goes on using the client after its own wait_for() timed out is covered by the model (a cancelled call ends, the next call is a new "
+    "round) but not provoked by the tie",
+    "ReadMemoryByAddress replies carry neither address nor format identifier: a late reply for the SAME number of bytes is indistinguishable from "
+    "the caller's own (rmba_same_size_indistinguishable); for a different number of bytes it is foreign (rmba_cross_is_foreign)",
     "the scripted wire keeps its inbox across reconnect() (a late reply may arrive on the new connection): the adversarial choice; the model's network "
     "may deliver any message at any time anyway",
 ]
@@ -1443,7 +1454,12 @@ MANIFEST = {
                    "caller must be the model's; independently of the model each caller must get a reply genuine to its request BYTES or an error, "
                    "no task may transmit while another task's exchange is open on the wire, and nobody may stay blocked. The callers cover the "
                    "public surface: tester_present / ping and every public method with a suppress_response option (off and on) next to an exchange "
-                   "in flight (incl. a ResponsePending extension). Reconnects run against a target that refuses k times and then accepts or stays "
+                   "in flight (incl. a ResponsePending extension); the late-reply schedules also run between two ReadMemoryByAddress requests built "
+                   "with default and explicit (0x24, 0x44, mixed) address-and-length format identifiers and different sizes, where only the "
+                   "codec's own matching tells the replies apart (rmba_cross_is_foreign, rmba_same_size_indistinguishable). The client's own "
+                   "mutex object is instrumented in place and asked locked() at the end; a caller WAITING for it behind a long exchange is "
+                   "cancelled (Task.cancel at every await of every task, wait_for deadline while waiting / holding, stop of the queued worker) "
+                   "with a queued and a later caller behind it, all of which must progress. Reconnects run against a target that refuses k times and then accepts or stays "
                    "away for good (explicit reconnect() and the automatic reconnect of a retried request, with a second user and the worker); "
                    "Model/TransportReconnect.lean models BaseTransport.reconnect(timeout) - one attempt without a timeout, a 100 ms retry loop under a "
                    "deadline - with reconnect_without_timeout_single_attempt, reconnect_bounded, reconnect_unreachable_target_fails for every stream "
